@@ -168,6 +168,156 @@ func genShared(t *rapid.T) Case {
 	return Case{F: f}
 }
 
+// WideCase: a formula with exactly-one groups of 10..40 names. All but a dozen of its names are fixed by literals
+// conjoined at top level, so that satisfiability is decided by enumerating the free names only.
+type WideCase struct {
+	F     *oracle.F       `json:"f"`     // and(core, literal of each fixed name)
+	Fixed map[string]bool `json:"fixed"` // the fixed names and their values
+}
+
+func genWide(t *rapid.T) WideCase {
+	nb := gen.Uniform(t, 12, 45, "names")
+	names := gen.NamePool(nb)
+	group := func() *oracle.F {
+		k := gen.Uniform(t, 10, min(40, nb), "width")
+		perm := rapid.Permutation(append([]string{}, names...)).Draw(t, "members")
+		g := &oracle.F{Op: "unique"}
+		for _, n := range perm[:k] {
+			g.Kids = append(g.Kids, oracle.V(n))
+		}
+		return g
+	}
+	lit := func() *oracle.F {
+		v := oracle.V(names[gen.Uniform(t, 0, nb-1, "v")])
+		if rapid.Bool().Draw(t, "neg") {
+			return &oracle.F{Op: "not", Kids: []*oracle.F{v}}
+		}
+		return v
+	}
+	small := func() *oracle.F {
+		return &oracle.F{Op: rapid.SampledFrom([]string{"or", "and", "implies", "xor", "eq"}).Draw(t, "op"), Kids: []*oracle.F{lit(), lit()}}
+	}
+	var core *oracle.F
+	switch rapid.IntRange(0, 5).Draw(t, "shape") {
+	case 0:
+		core = group()
+	case 1:
+		core = &oracle.F{Op: "not", Kids: []*oracle.F{group()}}
+	case 2:
+		core = &oracle.F{Op: "and", Kids: []*oracle.F{group(), group(), small()}}
+	case 3:
+		core = &oracle.F{Op: "or", Kids: []*oracle.F{{Op: "and", Kids: []*oracle.F{group(), small()}}, {Op: "and", Kids: []*oracle.F{{Op: "not", Kids: []*oracle.F{group()}}, small()}}}}
+	case 4:
+		core = &oracle.F{Op: "eq", Kids: []*oracle.F{group(), small()}}
+	default:
+		core = &oracle.F{Op: "implies", Kids: []*oracle.F{small(), {Op: "and", Kids: []*oracle.F{group(), {Op: "not", Kids: []*oracle.F{group()}}}}}}
+	}
+	used := core.Vars()
+	perm := rapid.Permutation(append([]string{}, used...)).Draw(t, "free")
+	nFree := gen.Uniform(t, 2, 11, "nFree")
+	c := WideCase{Fixed: map[string]bool{}}
+	all := &oracle.F{Op: "and", Kids: []*oracle.F{core}}
+	for i, n := range perm {
+		if i < nFree {
+			continue
+		}
+		val := gen.Chance(t, 1, 12, "fixedTrue")
+		c.Fixed[n] = val
+		if val {
+			all.Kids = append(all.Kids, oracle.V(n))
+		} else {
+			all.Kids = append(all.Kids, &oracle.F{Op: "not", Kids: []*oracle.F{oracle.V(n)}})
+		}
+	}
+	c.F = all
+	return c
+}
+
+func min(a, b int) int {
+	if a < b {
+		return a
+	}
+	return b
+}
+
+func checkWide(c WideCase, o *vf.Obs) error {
+	gs.Arm(0, gs.DefaultStepLimit)
+	defer gs.Arm(0, 0)
+	classify(c.F, o)
+	var free []string
+	for _, n := range c.F.Vars() {
+		if _, ok := c.Fixed[n]; !ok {
+			free = append(free, n)
+		}
+	}
+	if len(free) > 14 {
+		return fmt.Errorf("%w: too many free names", vf.ErrInconclusive)
+	}
+	widest := 0
+	c.F.Walk(1, func(g *oracle.F, _ int) {
+		if g.Op == "unique" && len(g.Kids) > widest {
+			widest = len(g.Kids)
+		}
+	})
+	o.ClassIf(widest >= 17, "group>=17-names")
+	o.ClassIf(widest >= 26, "group>=26-names")
+	o.Nontrivial()
+	env := map[string]bool{}
+	for n, v := range c.Fixed {
+		env[n] = v
+	}
+	var witness map[string]bool
+	nbModels := 0
+	for m := uint64(0); m < 1<<uint(len(free)); m++ {
+		for i, n := range free {
+			env[n] = m>>uint(i)&1 == 1
+		}
+		if c.F.Eval(env) {
+			nbModels++
+			if witness == nil {
+				witness = map[string]bool{}
+				for k, v := range env {
+					witness[k] = v
+				}
+			}
+		}
+	}
+	o.ClassIf(nbModels == 0, "unsat")
+	o.ClassIf(nbModels > 0, "sat")
+	got := bf.Solve(bfx.Build(c.F))
+	if got == nil {
+		if nbModels > 0 {
+			return fmt.Errorf("Solve returned no model but the formula %v is satisfiable (e.g. %v)", c.F, witness)
+		}
+		return nil
+	}
+	if nbModels == 0 {
+		return fmt.Errorf("Solve returned %v but the formula %v is false under every assignment", got, c.F)
+	}
+	// names the model omits are completed in a few fixed ways (all false, all true, alternating)
+	for variant := 0; variant < 4; variant++ {
+		i := 0
+		for _, n := range c.F.Vars() {
+			if b, ok := got[n]; ok {
+				env[n] = b
+				continue
+			}
+			env[n] = variant == 1 || variant == 2 && i%2 == 0 || variant == 3 && i%2 == 1
+			i++
+		}
+		if !c.F.Eval(env) {
+			return fmt.Errorf("returned assignment %v (completed with %v on the omitted names) makes the formula %v false", got, env, c.F)
+		}
+	}
+	return nil
+}
+
+func init() {
+	vf.Register(vf.Sub[WideCase]{Name: "wide-groups", Quick: 4000, Thorough: 60000, Gen: genWide, Check: checkWide, Floor: 0.9,
+		Classes: map[string]float64{"group>=17-names": 0.3, "sat": 0.15, "unsat": 0.15},
+		Rule:    "exactly-one groups of 10..40 names (the translation of a group changes shape with its width), alone, negated, two in a conjunction, under a disjunction, under an equivalence, contradictory pair under an implication, next to two-literal sub-formulas; all names but 2..11 are fixed by literals conjoined at top level, so satisfiability is decided exactly by enumerating the free names; same assertions as trees (names omitted by the model are completed in four fixed ways)"})
+}
+
 func init() {
 	vf.Register(vf.Sub[Case]{Name: "shared-subformulas", Quick: 20000, Thorough: 300000, Gen: genShared, Check: check, Floor: 0.4, Journal: true,
 		Classes: map[string]float64{"shares-an-object": 0.3},
